@@ -36,6 +36,17 @@ var solvers = []solverSpec{
 	{"cvc5", func(f string, t int) []string { return []string{"cvc5", fmt.Sprintf("--tlimit=%d", t*1000), f} }},
 }
 
+// lateSolvers join the race only for queries that are still undecided after a few seconds: the same
+// solver with other random seeds (quantifier instantiation is sensitive to the seed; a second seed
+// removes most of the instability of slow queries).
+var lateSolvers = []solverSpec{
+	{"z3-new/seed1", func(f string, t int) []string { return []string{"z3-new", fmt.Sprintf("-T:%d", t), "smt.random_seed=1", f} }},
+	{"z3-new/seed2", func(f string, t int) []string { return []string{"z3-new", fmt.Sprintf("-T:%d", t), "smt.random_seed=2", f} }},
+	{"z3/seed3", func(f string, t int) []string { return []string{"z3", fmt.Sprintf("-T:%d", t), "smt.random_seed=3", f} }},
+}
+
+const lateAfter = 4 * time.Second
+
 func runSolver(ctx context.Context, s solverSpec, file string, timeoutS int) (string, string, int64) {
 	ctx, cancel := context.WithTimeout(ctx, time.Duration(timeoutS+2)*time.Second)
 	defer cancel()
@@ -121,15 +132,40 @@ func Solve(o *Obligation, dir string, idx int, timeoutS int, thorough bool) *Sol
 		use = solvers[:1]
 	}
 	ctx, cancel := context.WithCancel(context.Background())
-	ch := make(chan r, len(use))
+	total := len(use)
+	if !expectSat {
+		total += len(lateSolvers)
+	}
+	ch := make(chan r, total)
 	for _, s := range use {
 		go func(s solverSpec) {
 			st, out, _ := runSolver(ctx, s, file, timeoutS)
 			ch <- r{st, out, s.name}
 		}(s)
 	}
-	for i := 0; i < len(use); i++ {
+	if !expectSat {
+		for _, s := range lateSolvers {
+			go func(s solverSpec) {
+				select {
+				case <-ctx.Done():
+					ch <- r{"skipped", "", s.name}
+					return
+				case <-time.After(lateAfter):
+				}
+				rem := timeoutS - int(lateAfter/time.Second)
+				if rem < 5 {
+					rem = 5
+				}
+				st, out, _ := runSolver(ctx, s, file, rem)
+				ch <- r{st, out, s.name}
+			}(s)
+		}
+	}
+	for i := 0; i < total; i++ {
 		x := <-ch
+		if x.st == "skipped" {
+			continue
+		}
 		res.Tried = append(res.Tried, x.name+":"+x.st)
 		if x.st == "unsat" || x.st == "sat" {
 			res.Status, res.Solver, res.Output = x.st, x.name, x.out
